@@ -72,7 +72,9 @@ prop('C03', title='Every expressed Interest completes exactly once with the righ
                 'the table handlers; express / express_interest (refusals before any effect, data flow into make_interest and '
                 'express_raw_interest, nonce, signer selection), _clean_up (every pending node cancelled once, tables emptied) and '
                 'main_loop (connect, start task, run, shut the face down however run() ends, then clean up, then await the start task).',
-     level_note='Bounded by history length and alphabet (see evidence.bounded); liveness rests on asyncio.wait_for. The composition of the '
+     level_note='One open known finding (current front-end: an Interest fetched at or after its deadline, e.g. InterestLifetime 0, waits '
+                'another 100 ms and accepts Data arriving in that window) is reported on every run. '
+                'Bounded by history length and alphabet (see evidence.bounded); liveness rests on asyncio.wait_for. The composition of the '
                 'per-function contracts over all event histories (a global exactly-once theorem) is NOT proved: asyncio futures / tasks, '
                 'pygtrie and wait_for are assumed interfaces, futures of distinct entries are assumed distinct.',
      technique=T_BOUNDED)
